@@ -13,7 +13,9 @@ Methods == {"syn", "sack", "prefer_sack"}
 \* (unreachable: the connect is answered by an ICMP host-unreachable - a filter on the way - instead of a RST)
 \* (addr_mismatch: the target accepts and would do SACK, but the host's policy routing gives the TCP connection another source
 \*  address than the one the probes are crafted with - a LOCAL reason, not a statement about the target)
-Caps == {"sack_ok", "sack_ok_ts", "no_sackperm", "ack_nosack", "port_closed", "unreachable", "no_synack", "addr_mismatch"}
+\* (udp_refused: the host's routing policy refuses DATAGRAM routes to the target - the local address cannot be determined: every
+\*  method ends with an error before any handle is opened, and nothing connects to the target instead)
+Caps == {"sack_ok", "sack_ok_ts", "no_sackperm", "ack_nosack", "port_closed", "unreachable", "no_synack", "addr_mismatch", "udp_refused"}
 Faults == {"none", "filter1", "filter2", "write1", "read_fatal"}
 
 \* outcome of one SACK attempt: <<result, notSupported>>
@@ -32,7 +34,8 @@ SackAttempt(cap, f) ==
 SynAttempt(f, consumed) == IF ~consumed /\ f \in {"filter1", "write1", "read_fatal"} THEN "error" ELSE "syn"
 
 Code(m, cap, f) ==
-    CASE m = "syn"  -> [out |-> SynAttempt(f, FALSE), dialed |-> FALSE, notsup |-> FALSE, fallback |-> FALSE]
+    CASE cap = "udp_refused" -> [out |-> "error", dialed |-> FALSE, notsup |-> FALSE, fallback |-> FALSE]
+      [] m = "syn"  -> [out |-> SynAttempt(f, FALSE), dialed |-> FALSE, notsup |-> FALSE, fallback |-> FALSE]
       [] m = "sack" -> LET a == SackAttempt(cap, f) IN [out |-> a[1], dialed |-> f # "filter1", notsup |-> a[2], fallback |-> FALSE]
       [] m = "prefer_sack" ->
             LET a == SackAttempt(cap, f) IN
